@@ -21,6 +21,7 @@ import (
 	"github.com/hyperjumptech/grule-rule-engine/ast/unique"
 	"math"
 	"reflect"
+	"strconv"
 	"strings"
 
 	"github.com/hyperjumptech/grule-rule-engine/pkg"
@@ -124,13 +125,13 @@ func (e *Constant) GetSnapshot() string {
 	buff.WriteString("->")
 	switch e.Value.Kind() {
 	case reflect.String:
-		buff.WriteString(fmt.Sprintf("\"%s\"", e.Value.String()))
+		buff.WriteString(fmt.Sprintf("%q", e.Value.String()))
 	case reflect.Int, reflect.Int8, reflect.Int16, reflect.Int32, reflect.Int64:
 		buff.WriteString(fmt.Sprintf("%d", e.Value.Int()))
 	case reflect.Uint, reflect.Uint8, reflect.Uint16, reflect.Uint32, reflect.Uint64:
 		buff.WriteString(fmt.Sprintf("%d", e.Value.Uint()))
 	case reflect.Float32, reflect.Float64:
-		buff.WriteString(fmt.Sprintf("%f", e.Value.Float()))
+		buff.WriteString(strconv.FormatFloat(e.Value.Float(), 'g', -1, 64))
 	case reflect.Bool:
 		buff.WriteString(fmt.Sprintf("%v", e.Value.Bool()))
 	}
